@@ -106,6 +106,7 @@ package helpers
 
 // B2-lite: other finishers of the same batch decrement the counter at any time (nobody increments it after construction), so what a
 // caller reads is at most what it knew -- in particular a zero read after one's own Done() does not mean one's own Done() reached zero.
+//@ assumption: B2-lite rely for WgCounter.Count: after construction a batch counter is only ever decremented (NewWgCounter is the only function that raises it), so a concurrent reader sees at most the value it knew
 //@ func WgCounter.Count
 //@   props C08 C05
 //@   ensures [SEQ] result == pt.count
